@@ -14,19 +14,28 @@ CLAIMS = {
         "text": "Lean theorems over C about the definitions regenerated from exponax/etdrk/*.py on every run: every closed form under "
                 "the contour integral equals its Cox-Matthews phi-combination, every stored coefficient is dt x the M-point contour "
                 "mean at z=L*dt, the contour rule is exact on degree<M polynomials and its nodes avoid the singularity, the stage "
-                "formulas equal the Cox-Matthews schemes for any nonlinear map, constant/zero nonlinearity are integrated exactly. "
-                "Correspondence: stored arrays and step_fourier vs the compiled model over a dense z cover. Global dt^p error decay "
-                "and the contour tail bound are not proved (paper results; measured by the oracle).",
+                "formulas equal the Cox-Matthews schemes for any nonlinear map, constant/zero nonlinearity are integrated exactly; "
+                "ACCURACY OF THE CONTOUR RULE (Properties/C02_accuracy.lean): aliasing identity for power series, Cauchy-estimate "
+                "error bound S q^M/(1-q^M), entire phi functions (limit values, integral representations, differentiable), and for "
+                "all fourteen stored coefficients |coef - dt*phi-combination(z)| <= |dt| c e^{max(0,z+R)} (r/R)^M/(1-(r/R)^M) for every "
+                "real z (zero, tiny and stiff alike), even M, r<R; with the code's defaults M=16, r=1 every coefficient is within "
+                "5e-8*|dt| of the exact Cox-Matthews value for every z<=0. Correspondence: stored arrays and step_fourier vs the "
+                "compiled model over a dense z cover. The global dt^p error decay is not proved (paper result; measured by the "
+                "oracle against an independent DOP853 reference).",
         "technique": "Lean 4 proof over translated ETDRK definitions + model/implementation correspondence",
         "design_ref": "DESIGN.md §5 C02",
     },
     "C13": {
         "text": "Lean theorems over any field about the conversion functions regenerated from stepper/generic/_utils.py on "
                 "every run (documented formulas alpha_j=a_j*dt/L^j, gamma_j=alpha_j*N^j*2^(j-1)*D, convection/gradient-norm/"
-                "polynomial scales; all normalize/denormalize and reduce/extract pairs are mutual inverses) and about the "
+                "polynomial scales; all normalize/denormalize and reduce/extract pairs are mutual inverses), about the "
                 "regenerated ETDRK code (scaling covariance step(dt,lambda,N)=step(1,dt*lambda,dt*N): only the non-dimensional "
-                "groups matter). Correspondence: conversions and every member of the specific/generic/normalized/difficulty "
-                "families vs the one model evaluated on the documented equivalent. Oracle: specific-vs-generic pairs of the overview.",
+                "groups matter) and about the linear symbols regenerated from every class's _build_linear_operator: the six "
+                "General* classes share one symbol sum_j a_j sum_d (i k_d)^j, the Normalized/Difficulty classes inherit it, "
+                "Burgers / KS equal their generic equivalents. Correspondence: conversions; every member of the specific/generic/"
+                "normalized/difficulty families vs the one model evaluated on the documented equivalent, EVERY combination of the "
+                "boolean options (conservative, single_channel, mixing flags); the regenerated symbol of every stepper class vs the "
+                "array the class builds. Oracle: specific-vs-generic pairs of the overview.",
         "technique": "Lean 4 proof over translated conversion/ETDRK definitions + model/implementation correspondence",
         "design_ref": "DESIGN.md §5 C13",
     },
@@ -50,14 +59,18 @@ CLAIMS = {
         "design_ref": "DESIGN.md §5 C20",
     },
     "C01": {
-        "text": "Lean theorems (general D): plane waves are eigenfunctions of the documented operator with eigenvalue "
-                "polySymbol and E0step(exp_term t lambda) solves u_t = Op u for every t (regenerated ETDRK0 code); semigroup "
-                "(n steps of dt = one step of n*dt) and inverse (-dt undoes dt); Hermitian symmetry is preserved; closed forms of "
-                "the documented symbols of advection / diffusion (matrix) / advection-diffusion / dispersion and hyper-diffusion "
-                "(both mixing flags) / general linear family; the wave stepper per mode is the exact rotation, DC drift, its ODE, "
-                "group law; rfftn/irfftn round trip for all D>=1, N>=1. Correspondence: every linear class's operator array vs "
-                "polySymbol of the documented operator and the whole step vs the model, dt in {1e-3,1,1e3,-0.3}; Wave per mode. The "
-                "D-dimensional assembly 'state = sum of modes' is proved in Lean for D=1 read-off only (stated in Properties/C01).",
+        "text": "Lean theorems (general D): THE PROPERTY assembled — for every real state that is a superposition of modes strictly "
+                "below Nyquist (and every real band-limited grid state is one), the regenerated ETDRK0 step between the model "
+                "transforms returns the superposition of the analytic solutions a e^{t Re lambda} cos(k.x + phi + t Im lambda) of the "
+                "documented operator, whole arrays, all D>=1, N>=1, every real t (no CFL limit, negative t); n steps of dt = one step "
+                "of n*dt and -dt undoes dt on these states, with proved counterexamples showing the Nyquist-free hypothesis is "
+                "necessary; plane waves are eigenfunctions with eigenvalue polySymbol; the symbols REGENERATED from each linear "
+                "class's _build_linear_operator source (Advection, Diffusion, AdvectionDiffusion, Dispersion, HyperDiffusion both "
+                "flags, general linear family, Wave) equal the documented operators, with a coverage theorem over all 26 classes "
+                "that define an operator and the 11 that inherit one; closed forms of the documented symbols; wave stepper per mode: "
+                "exact rotation, DC drift, ODE, group law; rfftn/irfftn round trip all D, N. Correspondence: every linear class's "
+                "operator array vs polySymbol of the documented operator AND vs the regenerated symbol evaluated by the driver, "
+                "whole step vs the model, dt in {1e-3,1,1e3,-0.3}; Wave per mode.",
         "technique": "Lean 4 proof (symbol algebra, exact ODE solution per mode, DFT round trip) + model/implementation correspondence",
         "design_ref": "DESIGN.md §5 C01",
     },
@@ -99,57 +112,64 @@ CLAIMS = {
     "C17": {
         "text": "Lean theorems on the integer form of the bins: no integer wavenumber vector lies on a bin edge (parity), a mode "
                 "is in bin b>=1 iff (2b-1)^2 < 4|k|^2 < (2b+1)^2 (i.e. round(|k|)=b), bin 0 is exactly the mean mode, a mode is in "
-                "at most one bin, modes outside the Nyquist sphere are in none, on-axis modes make every bin non-empty. "
-                "Correspondence: the bin of every stored mode (exact) and full spectra (power/amplitude x sum/average x channels) "
-                "vs the Spectrum model. Oracle: amplitude read-off for every wavenumber vector, Parseval with the Nyquist-sphere "
-                "truncation, average = sum / count.",
-        "technique": "Lean 4 proof (integer bin arithmetic) + exact per-mode correspondence",
+                "at most one bin, modes outside the Nyquist sphere are in none, on-axis modes make every bin non-empty; through "
+                "the model Spectrum.spectrum in every dimension: a cos(k.x+phi) shows |a| (amplitude) resp. a^2/4 (power) in the bin "
+                "of |k| and 0 elsewhere; 1-D full Parseval identity for every real state and both binnings; n-D: summed power + "
+                "power of the stored modes outside the Nyquist sphere = half the mean square. Correspondence: the bin of every "
+                "stored mode (exact) and full spectra (power/amplitude x sum/average x channels) vs the Spectrum model. Oracle: "
+                "amplitude read-off for every wavenumber vector, Parseval with the Nyquist-sphere truncation, average = sum / count.",
+        "technique": "Lean 4 proof (integer bin arithmetic + n-D DFT read-off through the spectrum model) + exact per-mode correspondence",
         "design_ref": "DESIGN.md §5 C17",
     },
     "C03": {
-        "text": "Lean theorems: cutoff arithmetic for every N (2/3 rule: 3K<N; 1/2 rule: 4K<N; the binary64 evaluation of the "
-                "cutoff used by the code never exceeds the rational one and is what the model is driven with); circular "
-                "convolution theorem and its alias-free form for band-limited fields (quadratic and cubic); ifft(mask*u_hat) is "
-                "the band truncation; for the 1-D one-channel model terms (conservative / non-conservative convection, gradient "
-                "norm with zero-mode fix, quadratic and cubic polynomial, Cahn-Hilliard) the output on every retained mode is the "
-                "linear (alias-free) convolution form of the documented operator on the truncated state, and 0 on every dropped "
-                "mode; zero outside the band for all terms in every dimension; regenerated cross product = documented formula. "
-                "Not proved in Lean: the per-term statement for D=2,3 / multi-channel / vorticity / rotational / Gray-Scott (tied by "
-                "correspondence to the model and by the 4x-oversampled oracle). Correspondence: masks exactly for a contiguous N "
-                "range (all residues mod 12), every nonlinear-function class vs the model, D=1..3.",
+        "text": "Lean theorems: cutoff arithmetic for every N on the REGENERATED cut-off expression (2/3 rule: 3K<N; 1/2 rule: 4K<N; its "
+                "integer part is the model band; the binary64 evaluation used by the code never exceeds the rational one and is what "
+                "the model is driven with); circular convolution theorem and its alias-free form for band-limited fields, quadratic "
+                "and cubic, in 1-D and in EVERY dimension (box |k_d|<=K); ifft(mask*u_hat) is the band truncation (all D), also for "
+                "differentiated spectra; per-term statement 'output on every retained mode = linear (alias-free) convolution form "
+                "of the documented operator on the truncated state, 0 on every dropped mode' in EVERY dimension for: polynomial "
+                "(degree<=2 with 2/3, degree<=3 with 1/2), conservative and non-conservative convection (multi- and single-channel), "
+                "gradient norm (both zero-mode options), Cahn-Hilliard, Gray-Scott, and the 2-D vorticity term; zero outside the band "
+                "for all terms in every dimension; regenerated cross product = documented formula. Not proved in Lean: the per-term "
+                "statement for the 3-D rotational term and Belousov-Zhabotinsky (correspondence + 4x-oversampled oracle). "
+                "Correspondence: masks exactly for a contiguous N range (all residues mod 12), every nonlinear-function class vs the "
+                "model, D=1..3.",
         "technique": "Lean 4 proof (DFT convolution/aliasing theory on the model pipeline) + model/implementation correspondence",
         "design_ref": "DESIGN.md §5 C03",
     },
     "C05": {
-        "text": "Lean theorems (general D): derivative symbol (i s k_d)^m and exactness on plane waves for any order; Laplace "
-                "symbols of every even order and gradient-inner-product symbols of every odd order in closed form; Poisson order 2 "
-                "and 4 per mode: zero mean mode, operator*solution = -rhs on every other stored mode, the guard fires only at the "
-                "mean mode; transform round trip for all D, N. Correspondence: build_laplace_operator, derivative (orders 1..6, "
-                "C>=1), Poisson (orders 2, 4) vs the model on arbitrary states. Oracle: analytic derivatives of Nyquist-free "
-                "trigonometric polynomials, Poisson residual.",
-        "technique": "Lean 4 proof (symbol algebra per mode) + model/implementation correspondence",
+        "text": "Lean theorems (general D): derivative symbol (i s k_d)^m; through the model routine, the order-m derivative along any "
+                "axis of every Nyquist-free real state is the grid sample of its analytic derivative (all D>=1, N odd/even, m>=0); "
+                "Laplace symbols of every even order and gradient-inner-product symbols of every odd order in closed form; "
+                "Poisson: per mode zero mean mode / operator*solution = -rhs / guard only at the mean mode, and in physical space "
+                "the solver returns for every Nyquist-free right-hand side the field with modes divided by s^2|k|^2, which the model "
+                "Laplacian maps back to -f; transform round trip for all D, N. Correspondence: build_laplace_operator, derivative "
+                "(orders 1..6, C>=1), Poisson (orders 2, 4) vs the model on arbitrary states. Oracle: analytic derivatives of "
+                "Nyquist-free trigonometric polynomials, Poisson residual.",
+        "technique": "Lean 4 proof (symbol algebra per mode + n-D DFT read-off of the model routines) + model/implementation correspondence",
         "design_ref": "DESIGN.md §5 C05",
     },
     "C12": {
         "text": "Lean theorems: ForcedStepper (regenerated) = inner(u + dt f), zero forcing = unforced; on the forced mode every "
                 "ETDRK order updates a -> e^z a + dt phi1(z) f and from rest a_n = f (e^{n z}-1)/sigma for every n, dt (laminar "
-                "solution); steady amplitude is a fixed point; the injected coefficients of the 2-D vorticity and 3-D velocity "
-                "model terms are exactly -m(2pi/L)gamma*scaling at (0,m) and -/+ i*gamma*scaling at (0,+-m,0) = coefficients of "
-                "gamma sin (Proofs/LerayAlgebra *_injection_documented). Correspondence: injected spectra, rest-start rollouts "
-                "for L in {2pi,1,5}, ForcedStepper over several base steppers. Oracle: laminar closed form of the documented "
-                "forcing. (The repaired forcing defects are listed in known_findings.json as fixed.)",
+                "solution); steady amplitude is a fixed point; at rest the 2-D vorticity model term returns exactly rfftn of "
+                "-m(2pi/L)gamma cos(m 2pi x_1/L) and the 3-D velocity term rfftn of gamma sin(m 2pi x_1/L) in channel 0 and zero in "
+                "channels 1, 2 (every N with 2m<N, any convection scale / dealiasing). Correspondence: injected spectra, rest-start "
+                "rollouts for L in {2pi,1,5}, ForcedStepper over several base steppers. Oracle: laminar closed form of the "
+                "documented forcing with varied convection scale and sign. (Repaired forcing defects: known_findings.json, fixed.)",
         "technique": "Lean 4 proof (recurrence/closed form + per-mode injection) + model/implementation correspondence",
         "design_ref": "DESIGN.md §5 C12",
     },
     "C15": {
-        "text": "Lean theorems: the block copy of map_between_resolutions preserves wavenumbers on every leading axis for all "
-                "parity combinations (N_old, N_new >= 2, incl. +-1), copies exactly the band -m/2 <= k <= (m-1)/2 with "
-                "m=min(N_old,N_new) and the first m/2+1 last-axis entries; same resolution is the identity; the transform pair "
-                "reproduces every real state on its grid (all D, N). Exactness of up/down-sampling on band-limited states and mean "
-                "preservation are NOT proved in Lean (checked by correspondence of the whole routine with the model and by the "
-                "oracle on Nyquist-free trigonometric polynomials). Correspondence: exact index maps for all (N_old, N_new) in "
-                "range x D, map_between_resolutions and FourierInterpolator numerically.",
-        "technique": "Lean 4 proof (slice/index arithmetic) + exact index-map correspondence + numerical correspondence",
+        "text": "Lean theorems through the model routines (all D>=1, all resolution pairs >=1 incl. +-1 and every parity, both oddball "
+                "options): every resolution change preserves the mean of ANY real state; the Fourier interpolant reproduces every "
+                "real state at its grid points; mapping a state band-limited below both Nyquist wavenumbers to any finer or coarser "
+                "grid samples its own interpolant there (exact up- and down-sampling); up-sampling from an odd grid is exact for "
+                "every state; 1-D: there-and-back is the identity, integer refinement keeps the samples; the block copy preserves "
+                "wavenumbers and copies exactly the band; same resolution is the identity. Correspondence: exact index maps for all "
+                "(N_old, N_new) in range x D, map_between_resolutions and FourierInterpolator numerically. Oracle: Nyquist-free "
+                "trigonometric polynomials at arbitrary query points (periodic extension), round trips, mean.",
+        "technique": "Lean 4 proof (DFT theory of the resampling routine + slice/index arithmetic) + exact index-map and numerical correspondence",
         "design_ref": "DESIGN.md §5 C15",
     },
     "C16": {
@@ -186,13 +206,17 @@ CLAIMS = {
         "design_ref": "DESIGN.md §5 C06",
     },
     "C07": {
-        "text": "PARTIAL. Lean theorems: the linear step is linear in the state (its Frechet derivative is the step itself), "
-                "HasDerivAt of the regenerated propagator w.r.t. dt and w.r.t. the symbol with the stated derivatives, the guarded "
-                "inverse Laplacians depend on (D, N, 2pi/L) only so that no listed derivative flows through a guarded division, "
-                "the wave symbols' guards. JAX's AD engine and IEEE NaN propagation are not modelled: the correspondence compares "
-                "jax.jvp / jax.grad of every stepper with the model evaluated on tangents and with central differences of the "
-                "model; the oracle checks jvp/vjp duality, finite gradients at the guarded points (zero state, zero mean mode), "
-                "gradients through rollouts and w.r.t. constructor parameters.",
+        "text": "PARTIAL. Lean theorems (Mathlib HasDerivAt / HasFDerivAt) about the regenerated code: every ETDRK stage formula is "
+                "differentiable in the state with the chain-rule derivative (scalar and Frechet form), n-step rollouts likewise; "
+                "polynomial nonlinearities are differentiable everywhere incl. u=0; every stored coefficient is differentiable in "
+                "lambda AT lambda=0 and in dt (the contour formulation never evaluates the removable singularity); the whole "
+                "ETDRK1/2/4 step is jointly differentiable in (dt, lambda) wherever no contour node is zero (every real lambda*dt); "
+                "derivative of the linear step w.r.t. a PDE coefficient; the guarded divisions are linear in their argument for every "
+                "divisor incl. 0 and the Poisson solve is linear; linear steppers: Jacobian = the step. JAX's AD engine and IEEE NaN "
+                "propagation are not modelled: the correspondence compares jax.jvp / vjp of linear steppers with the model step of "
+                "the tangent; the oracle checks, on the implementation, jvp vs central differences, vjp = adjoint, forward = reverse "
+                "mode w.r.t. dt and every PDE coefficient for ETDRK orders 1-4, through rollouts, and finiteness + correctness at the "
+                "guarded points (zero state, constant state) for every stepper class.",
         "technique": "Lean 4 proof (linearity, HasDerivAt of the propagator, guard independence) + AD-vs-model correspondence; AD engine external",
         "design_ref": "DESIGN.md §5 C07",
     },
